@@ -37,6 +37,9 @@ CLAIMS["C07"] = ("stateless model checking of the real code under a virtual cloc
 CLAIMS["C08"] = ("stateless model checking of the real code under a virtual clock: delay-bounded schedule enumeration against a descriptor-set reference computed from the event log",
     "1-3 polled futures (delegates finishing at different virtual times, one failing), seven poll-function behaviours (yield at first/second sight, exception, double yield, raising at call 1/2, custom interval), four cancel functions, a canceller and a notify() thread: every schedule to d<=2 (sync-op granularity) / d<=1 (line granularity of poll.py) is executed; oracles: no overlap of poll calls, descriptor set contains every future eligible before the snapshot window and none already resolved, no duplicates, first yield wins, a raising call fails exactly what it was shown, first sight and notify() are prompt, cancel function only in the polling stage and its veto respected.",
     "DESIGN.md section 6 C08")
+CLAIMS["C09"] = ("stateless model checking of the real code under a virtual clock: delay-bounded schedule enumeration with a cancel-attempt monitor",
+    "Sets of 2-3 futures with default / per-call timeouts and f_timeout, submitted at virtual times 0/0.5/1 from separate threads, completing before / at / after their deadline or never, with a user cancel: every schedule to d<=2 (sync-op) / d<=1 (line granularity of timeout.py) is executed; every cancel() attempt by the timeout thread is logged: none before the deadline, at most one per future, exactly one in [deadline, deadline+8 eps] for a future still pending then, none for early finishers whose outcome is kept. Thorough adds a timer-jump pass for 'never early'.",
+    "DESIGN.md section 6 C09")
 NOT_YET = {}
 
 props = [json.loads(l) for l in open(os.path.join(HERE, "properties.jsonl"))]
